@@ -926,11 +926,15 @@ class TreeBuilder:
                                     else_body=self.body(d, 2, allow_empty=True))
         elif k == 'masked':
             nb = rng.randint(1, 2)
-            bodies = tuple(self.body(0, 2, allow_empty=self.empty_inner and rng.random() < 0.5) for _ in range(nb))
+            # WHERE bodies hold assignments only (as in Fortran)
+            bodies = tuple(tuple(ir.Assignment(lhs=rng.choice(self.lhs), rhs=rng.choice(self.any))
+                                 for _ in range(rng.randint(0 if self.empty_inner and rng.random() < 0.5 else 1, 2)))
+                           for _ in range(nb))
             if any(not b for b in bodies):
                 self.features.add('empty_inner_body')
             n = ir.MaskedStatement(conditions=tuple(rng.choice(self.conds) for _ in range(nb)), bodies=bodies,
-                                   default=self.body(0, 2, allow_empty=True))
+                                   default=tuple(ir.Assignment(lhs=rng.choice(self.lhs), rhs=rng.choice(self.any))
+                                                 for _ in range(rng.randint(0, 2))))
         elif k == 'assoc':
             self._cnt += 1
             name = sym.Variable(name='zz%d' % (self._cnt % 3))
